@@ -306,6 +306,20 @@ func hazards() []hazard {
 		"import (\n\t\"context\"\n\n\t\"go.uber.org/cff\"\n)\n\nfunc Run(ctx context.Context, n int) (string, error) {\n\tvar out string\n\terr := cff.Flow(ctx,\n\t\tcff.Params(n),\n\t\tcff.Results(&out),\n\t\tcff.Task(func(i int) (string, error) { return string(rune('a' + i%26)), nil }),\n//line tmpl.go:1\n\t)\n\treturn out, err\n}\n", nil)
 	add("line-directives:end-of-parallel-on-line-1", "accept",
 		"import (\n\t\"context\"\n\n\t\"go.uber.org/cff\"\n)\n\nfunc Run(ctx context.Context, n int) error {\n\treturn cff.Parallel(ctx,\n\t\tcff.Task(func() error { _ = n; return nil }),\n//line tmpl.go:1\n\t)\n}\n", nil)
+	// dependency cycles: a positioned diagnostic, not a crash of the tool
+	cyc := func(feature, tasks string) {
+		add(feature, "diagnostic",
+			"import (\n\t\"context\"\n\n\t\"go.uber.org/cff\"\n)\n\ntype A struct{ N int }\ntype B struct{ N int }\n\nfunc Run(ctx context.Context, n int) (string, error) {\n\tvar out string\n\terr := cff.Flow(ctx,\n\t\tcff.Params(n),\n\t\tcff.Results(&out),\n"+tasks+"\t)\n\treturn out, err\n}\n", nil)
+	}
+	cyc("cycle:two-tasks", "\t\tcff.Task(func(b B) A { return A{b.N} }),\n\t\tcff.Task(func(a A, i int) B { return B{a.N + i} }),\n\t\tcff.Task(func(a A) string { return \"x\" }),\n")
+	cyc("cycle:self", "\t\tcff.Task(func(a A, i int) A { return A{a.N + i} }),\n\t\tcff.Task(func(a A) string { return \"x\" }),\n")
+	cyc("cycle:predicate-consumes-its-task's-output", "\t\tcff.Task(func(i int) A { return A{i} }, cff.Predicate(func(a A) bool { return a.N > 0 })),\n\t\tcff.Task(func(a A) string { return \"x\" }),\n")
+	cyc("cycle:through-predicate-and-second-task", "\t\tcff.Task(func(i int) A { return A{i} }, cff.Predicate(func(b B) bool { return b.N > 0 })),\n\t\tcff.Task(func(a A) B { return B{a.N} }),\n\t\tcff.Task(func(b B) string { return \"x\" }),\n")
+	// a file with CRLF line endings and a raw string that spans lines as the last
+	// token of an argument
+	add("crlf-file-with-multi-line-raw-string-argument", "accept",
+		"import (\n\t\"context\"\n\n\t\"go.uber.org/cff\"\n)\n\nfunc Run(ctx context.Context, n int) (string, error) {\n\tvar out string\n\terr := cff.Flow(ctx,\n\t\tcff.Params(n, `first\nsecond`),\n\t\tcff.Results(&out),\n\t\tcff.Task(func(i int, s string) (string, error) { return s + string(rune('a'+i%26)), nil }),\n\t)\n\treturn out, err\n}\n", nil)
+	hs[len(hs)-1].Files["p.go"] = strings.ReplaceAll(hs[len(hs)-1].Files["p.go"], "\n", "\r\n")
 	// signatures at the edge of what cff supports: whatever it decides, it must
 	// not accept them and then write code that does not compile
 	add("predicate-returns-defined-bool", "accept",
